@@ -136,6 +136,15 @@ func (u *c08Upstream) ServeHTTP(w http.ResponseWriter, r *http.Request) {
 		h.Set("Trailer", "X-Verif-Trailer")
 		_, _ = w.Write([]byte("body-before-trailer"))
 		h.Set("X-Verif-Trailer", "t1")
+	case "abort-mid-body":
+		// the upstream dies in the middle of a chunked body: part of the body is
+		// on its way, then the connection is cut (no terminating chunk)
+		_, _ = w.Write(bytes.Repeat([]byte("x"), 3000))
+		if fl, ok := w.(http.Flusher); ok {
+			fl.Flush()
+		}
+		time.Sleep(50 * time.Millisecond)
+		panic(http.ErrAbortHandler)
 	default:
 		_, _ = w.Write([]byte("ok"))
 	}
@@ -488,6 +497,10 @@ func c08Failures(run *evid.Run, evals, nontrivial *int) {
 	}
 	expect := func(kind string, node *e4.FullNode, host string, hdr map[string]string, want int) {
 		st, _, err := get(node, host, hdr)
+		for r := 0; r < 3 && (err != nil || st != want) && !e4.AllActive(w.nodes); r++ {
+			e4.WaitAllActive(w.nodes, 30*time.Second) // membership flapped under load: decide afresh
+			st, _, err = get(node, host, hdr)
+		}
 		switch {
 		case err != nil:
 			report(kind, "no-response", err.Error())
@@ -517,6 +530,14 @@ func c08Failures(run *evid.Run, evals, nontrivial *int) {
 		}
 		// faster than the timeout: untouched
 		expect("upstream within the timeout", n, "e1.piko.test", map[string]string{"X-Verif-Sleep": "50ms", "X-Verif-Id": "fast"}, 200)
+		// the upstream's connection is cut in the middle of a chunked body: the
+		// status is long gone, so the only way to be transparent is to cut the
+		// client's response too - never to finish it as if it were complete
+		{
+			kind := "upstream connection cut in the middle of the response body, via " + n.ID
+			sig, msg := abortMidBody("http://"+n.ProxyAddr()+"/x", "e1.piko.test")
+			report(kind, sig, msg)
+		}
 		// WebSocket upgrades are exempt from the timeout, however spelled
 		for _, spelling := range []string{"websocket", "WebSocket", "WEBSOCKET"} {
 			err := wsStaysOpen(n.ProxyAddr(), "e1.piko.test", spelling, 3*timeout)
@@ -527,6 +548,10 @@ func c08Failures(run *evid.Run, evals, nontrivial *int) {
 				report(kind, "", "")
 			}
 		}
+	}
+	{
+		sig, msg := abortMidBody("http://"+w.agentAddr+"/x", "")
+		report("service connection cut in the middle of the response body, via the agent's HTTP server", sig, msg)
 	}
 	// upstream unreachable in the ways a component upstream can fail
 	cl := e4.NewCompCluster(1, func() config.ProxyConfig { pc := e4.DefaultProxyConfig(); pc.Timeout = timeout; return pc }(), nil)
@@ -665,7 +690,7 @@ func init() {
 		cases := c08Cases(run.Thorough())
 		w := newC08World(30 * time.Second)
 		var mu sync.Mutex
-		evals, nontrivial := 0, 0
+		evals, nontrivial, flaps := 0, 0, 0
 		ch := make(chan c08Req, 64)
 		var wg sync.WaitGroup
 		for k := 0; k < 8; k++ {
@@ -675,6 +700,16 @@ func init() {
 				for c := range ch {
 					sig, msg := w.run(c)
 					for r := 0; r < 2 && sig == "request-failed"; r++ {
+						sig, msg = w.run(c)
+					}
+					// a refusal while a node is (wrongly, for a moment) suspected on a
+					// starved machine is not the proxy's doing: once everybody is active
+					// again the case is decided afresh
+					for r := 0; r < 3 && sig != "" && !e4.AllActive(w.nodes); r++ {
+						mu.Lock()
+						flaps++
+						mu.Unlock()
+						e4.WaitAllActive(w.nodes, 30*time.Second)
 						sig, msg = w.run(c)
 					}
 					mu.Lock()
@@ -705,6 +740,7 @@ func init() {
 		evals += tn
 		nontrivial += tn
 		run.Set("evaluations", evals)
+		run.Set("cases_redone_after_a_membership_flap", flaps)
 		run.Set("distinct_nontrivial", nontrivial)
 		grid := "every pair of dimensions fully crossed (others at a baseline)"
 		if run.Thorough() {
